@@ -38,6 +38,7 @@ type groupReg struct {
 	startAt        []int64
 	ends           []uint64
 	trigCalls      []uint64
+	selfTrig       int // the function calls its own trigger function this many times
 	lastStartByTimer bool
 }
 
@@ -77,6 +78,9 @@ func groupWorld(r *R) {
 			rg.delay = time.Duration(r.Choose(12, "reg-delay")) * 23 * time.Millisecond
 		}
 		rg.spin = r.Choose(6, "reg-spin")
+		if (rg.kind == 2 || rg.kind == 3) && r.Choose(3, "self-trigger") == 2 {
+			rg.selfTrig = 1
+		}
 		rg.raceStop = !settled && r.Choose(3, "race-stop") == 2
 		if rg.runTime > longest {
 			longest = rg.runTime
@@ -88,6 +92,9 @@ func groupWorld(r *R) {
 	var anyStopInv uint64
 	stopped := func() bool { return anyStopInv != 0 || parent.Dead() }
 
+	// (settled runs judge triggers once no more trigger calls are made: a function only triggers
+	// itself while the triggerers are still at work)
+	triggerersActive := func() bool { return false }
 	mkF := func(rg *groupReg) func(ctx context.Context) {
 		return func(ctx context.Context) {
 			s := sim.Seq()
@@ -116,6 +123,17 @@ func groupWorld(r *R) {
 				}
 			} else {
 				sim.Yield("f-run")
+			}
+			if rg.selfTrig > 0 && rg.trigger != nil && (!settled || triggerersActive()) {
+				// the function asks for another run of itself (once)
+				rg.selfTrig--
+				r.Probe("f-triggers-itself")
+				ts := sim.Seq()
+				if !stopped() {
+					rg.trigCalls = append(rg.trigCalls, ts)
+				}
+				r.Logf("f%d triggers itself #%d", rg.id, ts)
+				rg.trigger()
 			}
 			rg.running--
 			e := sim.Seq()
@@ -171,6 +189,7 @@ func groupWorld(r *R) {
 	// triggerers
 	ntrig := r.Choose(3, "triggerers")
 	triggerersDone := 0
+	triggerersActive = func() bool { return triggerersDone < ntrig }
 	for t := 0; t < ntrig; t++ {
 		t := t
 		calls := 1 + r.Choose(5, "trig-calls")
